@@ -528,7 +528,30 @@ func (tt *termTable) symStrBinop(op token.Token, x, y symstr) value {
 		}
 		return tt.wrap(c, types.Bool)
 	}
-	panic("sym: string op " + op.String() + " unsupported in spike")
+	switch op {
+	case token.LSS, token.LEQ, token.GTR, token.GEQ:
+		if op == token.GTR || op == token.GEQ {
+			x, y = y, x
+		}
+		// lexicographic x < y (LSS/GTR) or x <= y (LEQ/GEQ), built from the end
+		n := len(x)
+		if len(y) < n {
+			n = len(y)
+		}
+		var c *term
+		if op == token.LSS || op == token.GTR {
+			c = tt.boolc(len(x) < len(y))
+		} else {
+			c = tt.boolc(len(x) <= len(y))
+		}
+		for i := n - 1; i >= 0; i-- {
+			a, _ := tt.lift(x[i])
+			b, _ := tt.lift(y[i])
+			c = tt.or(tt.cmp("bvult", a, b), tt.and(tt.cmp("=", a, b), c))
+		}
+		return tt.wrap(c, types.Bool)
+	}
+	panic("sym: string op " + op.String() + " unsupported")
 }
 
 func (tt *termTable) symUnop(op token.Token, x symv) value {
